@@ -369,7 +369,7 @@ def _shims(sim: Sim):
 
 
 def perform_rt(scn: Dict[str, Any], kind: str, *, profile: str = "plain", order: str = "after",
-               tie_first: bool = True, watchdog: float = 4.0) -> Dict[str, Any]:
+               tie_first: bool = True, foreign_dispose: bool = False, watchdog: float = 4.0) -> Dict[str, Any]:
     import reactivex.scheduler.eventloopscheduler as elmod
     import reactivex.scheduler.newthreadscheduler as ntmod
     import reactivex.scheduler.scheduler as smod
@@ -378,7 +378,12 @@ def perform_rt(scn: Dict[str, Any], kind: str, *, profile: str = "plain", order:
     form, p, t0, first, stop, dur, H = (scn[k] for k in ("form", "p", "t0", "first", "stop", "dur", "horizon"))
     assert form == "periodic"
     cod = Codec(profile)
-    end = float(H) if stop["kind"] == "none" else float(H + 2 + 4 * p)   # stopping scenarios end by themselves well before
+    over = bool(scn.get("over"))
+    # stopping scenarios end by themselves well before; overrunning calls stretch the run
+    end = float(H) if stop["kind"] == "none" else float(H + 2 + 4 * p + (12 * (max(dur) + p) if over else 0))
+    # on the event loop the dispose is normally an action of the loop itself; from "another thread" (an agenda
+    # entry that fires while the loop waits or while a call is executing) when asked, and always in overrun scenarios
+    foreign_dispose = foreign_dispose or over
     sim = Sim(end, tie_first)
     FakeTimer, FakeEvent, FakeCondition, DeferredThread, ManualThread, FakeLoop = _shims(sim)
     ticks: List[Any] = []
@@ -424,7 +429,7 @@ def perform_rt(scn: Dict[str, Any], kind: str, *, profile: str = "plain", order:
             if stop["kind"] == "raise" and stop["at"] == k:
                 raise Boom(k)
             if d:
-                sim.t += float(d)        # the action takes d units of the controlled clock
+                sim.sleep(float(d))      # the action takes d units of the controlled clock; other threads run meanwhile
             if stop["kind"] == "self" and stop["at"] == k:
                 disp[0].dispose()
             return cod.val(k)
@@ -450,10 +455,13 @@ def perform_rt(scn: Dict[str, Any], kind: str, *, profile: str = "plain", order:
 
         if loop is not None:
             # everything is scheduled on the loop itself; the loop body runs on this thread
-            if stop["kind"] == "dispose" and order == "before":
+            on_loop = stop["kind"] == "dispose" and not foreign_dispose
+            if stop["kind"] == "dispose" and foreign_dispose:
+                sim.add(float(stop["at"]), do_dispose)
+            if on_loop and order == "before":
                 loop.schedule_absolute(sim.now() + timedelta(seconds=stop["at"]), do_dispose)
             loop.schedule_absolute(sim.now() + timedelta(seconds=t0), begin)
-            if stop["kind"] == "dispose" and order != "before":
+            if on_loop and order != "before":
                 loop.schedule_absolute(sim.now() + timedelta(seconds=stop["at"]), do_dispose)
             for _ in range(3):
                 try:
@@ -505,6 +513,30 @@ def _windowed(e: Dict[str, Any], got: Dict[str, Any], scn: Dict[str, Any]) -> bo
     return True
 
 
+def _overrun_ok(scn: Dict[str, Any], allowed: List[Dict[str, Any]], got: Dict[str, Any]) -> Optional[str]:
+    """Overrun scenarios (some call takes a period or more): the instants are not pinned; what is:
+    state threading, never more than once per period, the first call at its instant, stop after
+    self-dispose / raise, and no call starting after the dispose instant.  None = fine, else what failed."""
+    e = allowed[0]
+    stop, p = scn["stop"], scn["p"]
+    t = got["ticks"]
+    for i, x in enumerate(t):
+        if x[0] != i + 1 or x[2] != i:
+            return "state"
+    for a, b in zip(t, t[1:]):
+        if b[1] < a[1] + p:
+            return "more_than_once_per_period"
+    if e["ticks"] and (not t or t[0][1] != e["ticks"][0][1]):
+        return "first_call"
+    if stop["kind"] == "dispose" and any(x[1] > stop["at"] for x in t):
+        return "call_after_dispose"
+    if stop["kind"] in ("self", "raise") and len(t) != stop["at"]:
+        return "call_after_dispose" if stop["kind"] == "self" and len(t) > stop["at"] else "count"
+    if got["raised"] != e["raised"]:
+        return "raise"
+    return None
+
+
 def classify(scn, allowed, got) -> Dict[str, Any]:
     if got.get("hang"):
         return {"failure": "hang"}
@@ -539,6 +571,8 @@ def judge(scn: Dict[str, Any], allowed: List[Dict[str, Any]], target: str, **kw)
             return perform_rt(scn, target, watchdog=wd, **kw)
         return perform_vt(scn, target[6:] if catch else target, catch=catch, watchdog=wd, **kw)
 
+    if scn.get("over") and not rt:
+        raise ValueError("overrun scenarios are performed on the real-time targets only")
     if _HANGS[0] >= 3:   # do not spend hours on a tree that hangs
         _HANGS[1] += 1
         return None
@@ -548,11 +582,19 @@ def judge(scn: Dict[str, Any], allowed: List[Dict[str, Any]], target: str, **kw)
         if got.get("hang"):
             _HANGS[0] += 1
     bad = got.get("hang") or got.get("error") or got["problems"]
-    if not bad and any((_windowed(e, got, scn) if rt else _exact(e, got)) for e in allowed):
+    over = bool(scn.get("over"))
+    why = None
+    if not bad and over:
+        why = _overrun_ok(scn, allowed, got)
+        if why is None:
+            return None
+    elif not bad and any((_windowed(e, got, scn) if rt else _exact(e, got)) for e in allowed):
         return None
+    if len(got.get("ticks", [])) > 12:
+        got = dict(got, ticks=got["ticks"][:12] + ["..."])
     rec = {"engine": "periodic", "target": target, "variant": {k: v for k, v in kw.items() if k != "watchdog"}, "scn": scn,
-           "expected": allowed, "observed": got, "form": scn["form"]}
-    rec.update(classify(scn, allowed, got))
+           "expected": allowed, "observed": got, "form": scn["form"], "overrun": over}
+    rec.update({"failure": why, "stop_kind": scn["stop"]["kind"]} if why else classify(scn, allowed, got))
     return rec
 
 
@@ -560,7 +602,8 @@ def judge(scn: Dict[str, Any], allowed: List[Dict[str, Any]], target: str, **kw)
 # for other bundles: the model's expectation for one parameter point (TLC decides, not Python)
 # ---------------------------------------------------------------------------------------------
 _CACHE: Dict[Any, Any] = {}
-INVS = ["TypeOK", "TicksExact", "OncePerPeriod", "NoCallAfterStop", "StopsOnRaise", "RefOK"]
+INVS = ["TypeOK", "TicksExact", "OncePerPeriod", "NoCallAfterStop", "StopsOnRaise", "RefOK", "StateThreaded", "AtMostOncePerPeriod",
+        "NotBeforeGrid", "NoCallAfterDispose"]
 
 
 def periodic_expected(period: int, n: int, *, t0: int = 0, dispose_at: Optional[int] = None, self_dispose_at: Optional[int] = None,
@@ -579,7 +622,7 @@ def periodic_expected(period: int, n: int, *, t0: int = 0, dispose_at: Optional[
     maxk = max(self_dispose_at or 1, raise_at or 1)
     key = (period, t0, horizon, tuple(durations), maxk)
     if key not in _CACHE:
-        consts = dict(Forms={"periodic"}, Periods={period}, Starts={t0}, Firsts={period}, Durs=set(durations), Horizon=horizon, MaxK=maxk)
+        consts = dict(Forms={"periodic"}, Periods={period}, Starts={t0}, Firsts={period}, Durs=set(durations), Over=set(), Horizon=horizon, MaxK=maxk)
         res = tlc.run("Periodic", tlc.cfg_text(consts, invariants=INVS + ["Export"]), workers=1, timeout=600, allow_violation=False)
         _CACHE[key] = res.lines
     if dispose_at is not None:
